@@ -57,7 +57,7 @@ func (b *exampleBuilder) buildExampleForObjectNode(node *ischema.ObjectNode) ([]
 
 	buf.WriteByte('{')
 	children := node.Children()
-	length := len(children)
+	written := false
 	for i, childNode := range children {
 		ex, err := b.Build(childNode)
 		if err != nil {
@@ -73,13 +73,14 @@ func (b *exampleBuilder) buildExampleForObjectNode(node *ischema.ObjectNode) ([]
 			return nil, err
 		}
 
+		if written {
+			buf.WriteByte(',')
+		}
+		written = true
 		buf.WriteByte('"')
 		buf.Write(k)
 		buf.WriteString(`":`)
 		buf.Write(ex)
-		if i+1 != length {
-			buf.WriteByte(',')
-		}
 	}
 	buf.WriteByte('}')
 	return append([]byte(nil), buf.Bytes()...), nil
@@ -112,8 +113,8 @@ func (b *exampleBuilder) buildExampleForArrayNode(node *ischema.ArrayNode) ([]by
 
 	buf.WriteByte('[')
 	children := node.Children()
-	length := len(children)
-	for i, childNode := range children {
+	written := false
+	for _, childNode := range children {
 		ex, err := b.Build(childNode)
 		if err != nil {
 			return nil, err
@@ -123,10 +124,11 @@ func (b *exampleBuilder) buildExampleForArrayNode(node *ischema.ArrayNode) ([]by
 			continue
 		}
 
-		buf.Write(ex)
-		if i+1 != length {
+		if written {
 			buf.WriteByte(',')
 		}
+		written = true
+		buf.Write(ex)
 	}
 	buf.WriteByte(']')
 	return append([]byte(nil), buf.Bytes()...), nil
